@@ -11,9 +11,10 @@ namespace pybind11 {
 struct buffer_info { void *ptr; std::size_t size; };
 template <typename T> class array_t {
   std::shared_ptr<std::vector<T>> v_;
+  std::size_t n_ = 0;
 public:
   array_t() : v_(std::make_shared<std::vector<T>>()) {}
-  explicit array_t(std::size_t n) : v_(std::make_shared<std::vector<T>>(n)) {}
+  explicit array_t(std::size_t n) : v_(std::make_shared<std::vector<T>>(n)), n_(n) { if (n == 0) v_->reserve(1); /* numpy never hands out a null data pointer */ }
   buffer_info request() { return buffer_info{ (void *)v_->data(), v_->size() }; }
   std::size_t size() const { return v_->size(); }
   const T *data() const { return v_->data(); }
